@@ -296,12 +296,10 @@ def evalSpecMacro : Str → Val → List Ast → Env → Val
        | [seed, step, n, c] =>
          (match identOf c, identOf n with
           | some cur, some nxt =>
-            (match evalSpec seed env with
-             | .err k => .err k
-             | s0 =>
-               match this with
-               | .list l => reduceVal (fun acc v => evalSpec step ((env.bind nxt v).bind cur acc)) l s0
-               | _ => .err .value)
+            (evalSpec seed env).andThen fun s0 =>        -- a failing seed fails the macro
+              match this with
+              | .list l => reduceVal (fun acc v => evalSpec step ((env.bind nxt v).bind cur acc)) l s0
+              | _ => .err .value
           | _, _ => notCovered)
        | _ => .err .argument)
     else if name = "map".toList then
